@@ -2,24 +2,27 @@
 # dev helper: build an engine binary and run one run index verbosely
 # usage: dev-run.sh <prop> <engine-dir> <pkg> <run> [seed]
 set -e
+REPO=${VERIF_REPO:-/repo}
+export REPO
 export GOFLAGS=-mod=mod GOPROXY=off GOSUMDB=off GOTOOLCHAIN=local GODEBUG=asynctimerchan=0
 S=$(mktemp -d /var/tmp/verifdev.XXXXXX)
 trap "rm -rf $S" EXIT
 python3 - "$2" "$S" <<'PY'
 import sys,os,json
 eng,S=sys.argv[1],sys.argv[2]
+REPO=os.environ.get('REPO','/repo')
 repl={}
 for f in os.listdir('/verif/sim/core'):
-    if f.endswith('.go'): repl['/repo/internal/verifsim/'+f]='/verif/sim/core/'+f
+    if f.endswith('.go'): repl[REPO+'/internal/verifsim/'+f]='/verif/sim/core/'+f
 for d in ('access',eng):
     root='/verif/sim/'+d
     for dp,_,fs in os.walk(root):
         for f in fs:
             if f.endswith('.go'):
                 rel=os.path.relpath(dp,root)
-                repl[os.path.normpath(os.path.join('/repo',rel,'zz_verif_'+f))]=os.path.join(dp,f)
+                repl[os.path.normpath(os.path.join(REPO,rel,'zz_verif_'+f))]=os.path.join(dp,f)
 json.dump({'Replace':repl},open(S+'/overlay.json','w'))
 PY
-(cd /repo && go1.26.8 test -c -tags verif -vet=off -overlay $S/overlay.json -o $S/sim.test ./$3)
+(cd $REPO && go1.26.8 test -c -tags verif -vet=off -overlay $S/overlay.json -o $S/sim.test ./$3)
 mkdir -p $S/tmp
-cd /repo/$3 && TMPDIR=$S/tmp VERIF_DIR=/verif VERIF_PROP=$1 VERIF_ONLY_RUN=$4 VERIF_SEED=${5:-1} VERIF_OUT=$S $S/sim.test -test.run '^TestVerifSim$' -test.cpu 1
+cd $REPO/$3 && TMPDIR=$S/tmp VERIF_DIR=/verif VERIF_PROP=$1 VERIF_ONLY_RUN=$4 VERIF_SEED=${5:-1} VERIF_OUT=$S $S/sim.test -test.run '^TestVerifSim$' -test.cpu 1
